@@ -121,6 +121,7 @@ def slot_class(cls):
 
 
 LEADS = ["", "", " ", "    ", "\t"]
+EXOTIC_WS = ["\x0b", "\x0c", "\x1c", "\x1d", "\x1e", "\x85", "\u2028", "\u2029"]
 
 
 def secret_line(r, ctx, secrets, kinds=("keep", "scrub"), ident=None, templates=None):
@@ -160,6 +161,17 @@ def secret_line(r, ctx, secrets, kinds=("keep", "scrub"), ident=None, templates=
                 merged[-1][1] += s[1]
             else:
                 merged.append(s)
+        if r.random() < 0.07:
+            # an exotic whitespace character (a line boundary for str.splitlines, plain whitespace for
+            # a text-mode reader) between two words of the kept context
+            lits = [s for s in merged if s[0] == "lit" and " " in s[1].strip()]
+            if lits:
+                s = r.choice(lits)
+                body = s[1].strip()
+                pos = [i for i, ch in enumerate(s[1]) if ch == " " and 0 < i - (len(s[1]) - len(s[1].lstrip())) < len(body) - 1]
+                if pos:
+                    i = r.choice(pos)
+                    s[1] = s[1][:i] + r.choice(EXOTIC_WS) + s[1][i + 1:]
         return {"segs": merged, "eol": "\n", "tmpl": t, "kind": kind}
     return None
 
